@@ -234,8 +234,7 @@ func FuzzCalls(f *testing.F) {
 	f.Fuzz(rapid.MakeFuzz(func(t *rapid.T) {
 		kind := refl.Kinds[rapid.IntRange(0, len(refl.Kinds)-1).Draw(t, "kind")]
 		c := gen(kind)(t)
-		if _, err := check(c); err != nil {
-			p := pbt.SaveFuzzFailure("C17", "fuzz", c, err)
+		if p, err := pbt.FuzzCase("C17", "fuzz", c, check); err != nil {
 			t.Fatalf("violation: replay=%s %v", p, err)
 		}
 	}))
